@@ -13,7 +13,7 @@ import (
 func (adapter *Adapter) WatchTrigger(md *reduced.Metadata) {
 	// figure out the type: primary or mapped, and queue accordingly
 	for _, in := range adapter.Inputs {
-		if in.Namespace == md.Namespace && in.Type == md.Typ {
+		if in.Namespace == md.Namespace && in.Type == md.Typ && (!in.ID.IsPresent() || in.ID.ValueOrZero() == md.ID) {
 			switch in.Kind {
 			case controller.InputQPrimary:
 				item := NewQItemFromReduced(md, QJobReconcile)
